@@ -62,58 +62,139 @@ def _one_append_per_iteration(ck, fa: FA, loop_node, list_name, rule, tag):
     return apps
 
 
+def _is_input_seq(fa, expr, at, param):
+    """Does `expr` (a loop's sequence) denote the input list itself, in order?"""
+    e = expr
+    if isinstance(e, ast.Call) and A.call_attr(e) == "tqdm" and e.args:
+        e = e.args[0]
+    if isinstance(e, ast.Name) and e.id == param:
+        return True
+    if isinstance(e, ast.Name):
+        ds = fa.df.reaching(at, e.id)
+        return bool(ds) and all(d.value is not None and d.kind == "assign" and _is_input_seq(fa, d.value, d.node, param) for d in ds)
+    return False
+
+
+def _index_is_input_position(fa, idx_expr, stmt, param):
+    """Is `idx_expr` (in `results[idx_expr] = ...`) a position in the input list?"""
+    if isinstance(idx_expr, ast.Name):
+        loop = fa.enclosing(stmt, ast.For)
+        while loop is not None:
+            tg = loop.target
+            it = loop.iter
+            nodes = fa.nodes(loop)
+            at = nodes[0] if nodes else fa.cfg.entry
+            if isinstance(tg, ast.Tuple) and tg.elts and isinstance(tg.elts[0], ast.Name) and tg.elts[0].id == idx_expr.id \
+                    and isinstance(it, ast.Call) and A.call_attr(it) == "enumerate" and it.args:
+                return _is_input_seq(fa, it.args[0], at, param)
+            if isinstance(tg, ast.Name) and tg.id == idx_expr.id and isinstance(it, ast.Call) and A.call_attr(it) == "range":
+                return A.norm(it) in ("range(0, len(%s))" % param, "range(len(%s))" % param)
+            loop = fa.enclosing(loop, ast.For)
+        return False
+    if isinstance(idx_expr, ast.Subscript) and isinstance(idx_expr.value, ast.Name):
+        # positions[j] where positions = [i for i in range(len(param)) if ...]
+        for i in fa.nodes(stmt):
+            ds = fa.df.reaching(i, idx_expr.value.id)
+            if ds and all(isinstance(d.value, ast.ListComp) and A.norm(d.value.generators[0].iter) in ("range(0, len(%s))" % param, "range(len(%s))" % param)
+                          and A.norm(d.value.elt) == A.norm(d.value.generators[0].target) for d in ds):
+                return True
+    return False
+
+
+def _check_index_fills(ck, fa, R, param, result_name, tag):
+    fills = []
+    for st in fa.stmts(ast.Assign):
+        for t in st.targets:
+            if isinstance(t, ast.Subscript) and isinstance(t.value, ast.Name) and t.value.id == result_name:
+                fills.append((st, t.slice))
+    for (st, idx) in fills:
+        ok = _index_is_input_position(fa, idx, st, param)
+        ck.ob(R, fa.key(st, tag + "-slot-index"), ok, "the slot index is the element's position in the input" if ok else
+              "`%s` fills slot `%s`, which is not the element's position in the input list (it counts another sequence): results are "
+              "attributed to the wrong calls" % (A.short(st, 50), A.norm(idx)), fa.where(st))
+    return fills
+
+
+def check_slots(ck, R1):
+    """One result slot per input element, at the element's position (batch runner and the
+    cache/store merge of get_mementos)."""
+    ck.rule(R1, "one slot per element: every path through one iteration of the batch loop (and of the cache/store merge) "
+                "fills exactly one result slot, at the element's input position; the list is returned unfiltered and unsorted", 5)
+    br = FA(ck, RL + ".LocalRunnerBackend.batch_run")
+    inp = "fn_reference_with_args"
+    fills = _check_index_fills(ck, br, R1, inp, "results", "batch")
+    loops = [n for n in br.cfg.nodes if n.kind == "for" and isinstance(n.ast.iter, ast.Call) and A.call_attr(n.ast.iter) == "enumerate"
+             and n.ast.iter.args and _is_input_seq(br, n.ast.iter.args[0], n.id, inp)]
+    if len(loops) != 1:
+        ck.ob(R1, br.key(None, "batch-loop"), False, "batch_run has %d loops enumerating the input list" % len(loops), br.where())
+        return None, br
+    loop = loops[0]
+    if not fills:
+        _one_append_per_iteration(ck, br, loop, "results", R1, "batch")
+    else:
+        # indexed form: every iteration assigns its slot or hands the element on unchanged; an
+        # element that is deferred must be filled by a later loop at its own position (checked above)
+        appends = [c for c in br.calls("append") if A.dotted(A.call_recv(c)) == "results"]
+        ck.ob(R1, br.key(loop.ast, "batch-no-mixed-forms"), not appends, "slots are filled by index only" if not appends else
+              "results are filled both by index and by append", br.where(loop.ast))
+    rets = br.returns()
+    okr = len(rets) == 1 and A.norm(rets[0].value) == "results"
+    ck.ob(R1, br.key(rets[0] if rets else None, "returned-as-is"), okr, "results are returned unfiltered, in slot order" if okr else
+          "batch_run does not return the plain results list", br.where())
+    muts = [c for c in br.calls() if A.dotted(A.call_recv(c)) == "results" and A.call_attr(c) in ("sort", "reverse", "insert", "pop", "remove", "extend", "clear")]
+    ck.ob(R1, br.key(None, "no-reordering"), not muts, "results is only filled, never reordered" if not muts else
+          "results is reordered or edited (%s)" % A.short(muts[0], 40), br.where(muts[0] if muts else None))
+    # the element handler turns an exception into that element's slot
+    trs = [t for t in br.stmts(ast.Try) if any(A.call_attr(c) == "memento_run_local" for b in t.body for c in A.calls_in(b))]
+    okh = False
+    for t in trs:
+        for h in t.handlers:
+            if h.type is not None and A.norm(h.type) == "Exception" and h.name:
+                st_ = [n for n in A.walk_local(h) if (isinstance(n, ast.Call) and A.call_attr(n) == "append" and n.args and A.norm(n.args[0]) == h.name)
+                       or (isinstance(n, ast.Assign) and isinstance(n.targets[0], ast.Subscript) and A.norm(n.targets[0].value) == "results" and A.norm(n.value) == h.name)]
+                if st_:
+                    okh = True
+    ck.ob(R1, br.key(loop.ast, "failure-in-slot"), okh, "a failing element's exception (of any class) is stored in its own slot" if okh else
+          "an element's exception is not caught as `Exception` and stored in its slot: an error raised while running one element aborts or shifts the batch", br.where(loop.ast))
+    # ---- merge in get_mementos
+    gm = FA(ck, "storage_base.StorageBackendBase.get_mementos")
+    gfills = _check_index_fills(ck, gm, R1, "fns", "results", "merge")
+    mloops = [n for n in gm.cfg.nodes if n.kind == "for" and not isinstance(gm.pm.get(n.ast), ast.comprehension) and A.norm(n.ast.iter) in ("range(0, len(fns))", "range(len(fns))")]
+    if not gfills:
+        if len(mloops) != 1:
+            ck.ob(R1, gm.key(None, "merge-loop"), False, "get_mementos has no single merge loop over the input positions", gm.where())
+        else:
+            ml = mloops[0]
+            _one_append_per_iteration(ck, gm, ml, "results", R1, "merge")
+            incs = [s_ for s_ in gm.stmts(ast.AugAssign) if isinstance(s_.target, ast.Name) and s_.target.id == "query_index"]
+            oki = len(incs) == 1
+            if oki:
+                uses = [n for n in A.walk_local(ml.ast) if isinstance(n, ast.Subscript) and A.norm(n.value) == "query_result"]
+                g_inc = gm.enclosing(incs[0], ast.If)
+                g_use = gm.enclosing(uses[0], ast.If) if uses else None
+                oki = bool(uses) and g_inc is g_use and g_inc is not None and incs[0] in g_inc.body and A.norm(g_inc.test) in ("cr is None",) \
+                    and all(gm.cfg.must_pass(gm.nodes(uses[0]), i) for i in gm.nodes(incs[0]))
+            ck.ob(R1, gm.key(None, "miss-counter"), oki, "the store-result cursor advances exactly on cache misses" if oki else
+                  "the cursor into the store results does not advance exactly once per cache miss: results are attributed to the wrong calls", gm.where())
+            qf = [s_ for s_ in gm.stmts(ast.Assign) if any(isinstance(t, ast.Name) and t.id == "query_fns" for t in s_.targets)]
+            okq = len(qf) == 1 and isinstance(qf[0].value, ast.ListComp) and A.norm(qf[0].value.generators[0].iter) == "range(0, len(fns))" \
+                and [A.norm(c) for c in qf[0].value.generators[0].ifs] == ["cache_result[i] is None"] and A.norm(qf[0].value.elt) == "fns[i]"
+            ck.ob(R1, gm.key(qf[0] if qf else None, "miss-list"), okq, "the store is queried for exactly the cache misses, in order" if okq else
+                  "the list of store queries is not exactly the cache misses in input order", gm.where())
+    return loop, br
+
+
 def check(ck):
     R1, R2, R3, R4 = ("C15.R%d" % i for i in range(1, 5))
-    ck.rule(R1, "one slot per element: every path through one iteration of the batch loop (and of the cache/store merge "
-                "loop) appends exactly one result; the list is returned unfiltered and unsorted", 6)
     ck.rule(R2, "alignment: the bulk pre-check is a comprehension over the same sequence, in the same order, that the "
                 "loop enumerates; existing mementos are indexed with the loop index", 3)
     ck.rule(R3, "call_batch builds one reference per kwargs in order and raises the first exception; map_over_range "
                 "pairs values and results by the same index", 4)
     ck.rule(R4, "an element without a valid served result goes through memento_run_local", 1)
 
-    br = FA(ck, RL + ".LocalRunnerBackend.batch_run")
-    loop = br.one([n for n in br.cfg.nodes if n.kind == "for" and "enumerate" in A.norm(n.ast.iter)], "element loop")
-    _one_append_per_iteration(ck, br, loop, "results", R1, "batch")
-    rets = br.returns()
-    okr = len(rets) == 1 and A.norm(rets[0].value) == "results"
-    ck.ob(R1, br.key(rets[0] if rets else None, "returned-as-is"), okr, "results are returned unfiltered, in append order" if okr else
-          "batch_run does not return the plain results list", br.where())
-    muts = [c for c in br.calls() if A.dotted(A.call_recv(c)) == "results" and A.call_attr(c) in ("sort", "reverse", "insert", "pop", "remove", "extend", "clear")]
-    ck.ob(R1, br.key(None, "no-reordering"), not muts, "results is only appended to" if not muts else
-          "results is reordered or edited (%s)" % A.short(muts[0], 40), br.where(muts[0] if muts else None))
-    # the element handler turns an exception into that element's slot
-    trs = [t for t in br.stmts(ast.Try) if br.inside(t, loop.ast)]
-    okh = False
-    for t in trs:
-        for h in t.handlers:
-            if h.type is not None and A.norm(h.type) == "Exception" and h.name:
-                apps = [n for n in A.walk_local(h) if isinstance(n, ast.Call) and A.call_attr(n) == "append" and n.args and A.norm(n.args[0]) == h.name]
-                if apps:
-                    okh = True
-    ck.ob(R1, br.key(loop.ast, "failure-in-slot"), okh, "a failing element's exception is stored in its own slot" if okh else
-          "an element's exception is not stored in its slot (it aborts or shifts the batch)", br.where(loop.ast))
-
-    gm = FA(ck, "storage_base.StorageBackendBase.get_mementos")
-    mloops = [n for n in gm.cfg.nodes if n.kind == "for" and not isinstance(gm.pm.get(n.ast), ast.comprehension) and "range" in A.norm(n.ast.iter)]
-    ml = gm.one(mloops, "merge loop")
-    _one_append_per_iteration(ck, gm, ml, "results", R1, "merge")
-    incs = [s for s in gm.stmts(ast.AugAssign) if isinstance(s.target, ast.Name) and s.target.id == "query_index"]
-    oki = len(incs) == 1
-    if oki:
-        # the increment is on the miss branch (where query_result[query_index] is consumed), once per miss
-        uses = [n for n in A.walk_local(ml.ast) if isinstance(n, ast.Subscript) and A.norm(n.value) == "query_result"]
-        g_inc = gm.enclosing(incs[0], ast.If)
-        g_use = gm.enclosing(uses[0], ast.If) if uses else None
-        oki = bool(uses) and g_inc is g_use and g_inc is not None and incs[0] in g_inc.body and A.norm(g_inc.test) in ("cr is None",) \
-            and all(gm.cfg.must_pass(gm.nodes(uses[0]), i) for i in gm.nodes(incs[0]))
-    ck.ob(R1, gm.key(None, "miss-counter"), oki, "the store-result cursor advances exactly on cache misses" if oki else
-          "the cursor into the store results does not advance exactly once per cache miss: results are attributed to the wrong calls", gm.where())
-    qf = [s for s in gm.stmts(ast.Assign) if any(isinstance(t, ast.Name) and t.id == "query_fns" for t in s.targets)]
-    okq = len(qf) == 1 and isinstance(qf[0].value, ast.ListComp) and A.norm(qf[0].value.generators[0].iter) == "range(0, len(fns))" \
-        and [A.norm(c) for c in qf[0].value.generators[0].ifs] == ["cache_result[i] is None"] and A.norm(qf[0].value.elt) == "fns[i]"
-    ck.ob(R1, gm.key(qf[0] if qf else None, "miss-list"), okq, "the store is queried for exactly the cache misses, in order" if okq else
-          "the list of store queries is not exactly the cache misses in input order", gm.where())
+    loop, br = check_slots(ck, R1)
+    if loop is None:
+        return
 
     # ---- R2
     pre = br.one([c for c in br.calls("get_mementos")], "bulk get_mementos call")
